@@ -11,7 +11,11 @@ for n in names:
     e = exp[n]
     assert subprocess.run(["git", "-C", REPO, "status", "--porcelain", "-uno"], capture_output=True, text=True).stdout.strip() == "", "repo dirty"
     try:
-        subprocess.run(["git", "-C", REPO, "apply", f"{V}/selftest/{n}.patch"], check=True)
+        a = subprocess.run(["git", "-C", REPO, "apply", f"{V}/selftest/{n}.patch"], capture_output=True, text=True)
+        if a.returncode != 0:
+            print("STALE " + n, e["property"], "patch does not apply:", a.stderr.strip().splitlines()[0][:120], flush=True)
+            fail += 1
+            continue
         r = subprocess.run([f"{V}/check", e["property"]], capture_output=True, text=True, cwd=V)
     finally:
         subprocess.run(["git", "-C", REPO, "checkout", "--", "."], check=True)
@@ -22,7 +26,7 @@ for n in names:
         ok = not vio and r.returncode == 0
     else:
         ok = bool(hit) and r.returncode == 1
-    print(("PASS " if ok else "FAIL ") + n, e["property"], f"violations={len(vio)}", "" if ok else (r.stdout[-1500:] + r.stderr[-1500:]))
+    print(("PASS " if ok else "FAIL ") + n, e["property"], f"violations={len(vio)}", "" if ok else (r.stdout[-1500:] + r.stderr[-1500:]), flush=True)
     if len(vio) > len(hit) and ok:
         print("   extra:", [v.split("replay=")[1].split("/")[-1] for v in vio if v not in hit][:6])
     fail += 0 if ok else 1
